@@ -1,5 +1,7 @@
 import SleapVerif.Lemmas.EvalVoc
 import SleapVerif.Lemmas.EvalMatch
+import SleapVerif.Lemmas.EvalPairs
+import SleapVerif.Lemmas.EvalPct
 
 /-!
 # C16 — evaluation metrics: perfect for perfect predictions, bounded, monotone
@@ -156,6 +158,21 @@ theorem pck_monotone_in_pixels (thr thr' : R) (h : thr ≤ thr') (d : List (Opti
         · exact ih
       · simp only [if_true, hsub x h1, List.length_cons]; omega
   exact div_le_div_of_nonneg_right (by exact_mod_cast this) (Nat.cast_nonneg _)
+
+/-- **The distance summary is monotone**: `p50 ≤ p75 ≤ p90 ≤ p95 ≤ p99` (any `p ≤ q ≤ 100`), for every
+non-empty sample of distances (`np.percentile` with linear interpolation). -/
+theorem percentile_monotone (p q : Nat) (hpq : p ≤ q) (hq : q ≤ 100) (l : List R) (v w : R)
+    (hv : percentile (Nat.cast : Nat → R) p l = some v) (hw : percentile (Nat.cast : Nat → R) q l = some w) :
+    v ≤ w := by
+  obtain ⟨s0, st, hs, rfl⟩ := percentile_eq p l v hv
+  obtain ⟨s0', st', hs', rfl⟩ := percentile_eq q l w hw
+  rw [hs] at hs'
+  obtain ⟨rfl, rfl⟩ := List.cons.inj hs'
+  have hsorted := sortAsc_sorted l
+  rw [hs] at hsorted
+  exact interp_mono hsorted s0 (by simp) p q hpq hq
+
+example : percentile (fun n : Nat => (n : Rat)) 50 [3, 1, 2, 10] = some (5/2) := by decide +kernel
 
 /-! ## deleting predictions -/
 
@@ -323,6 +340,35 @@ theorem perfect_scores (T : Transc R) (pairs : List (R × R)) (hne : pairs ≠ [
     have hlen : (distRow T.sqrt g g).length = g.length := by simp [distRow]
     rw [hcnt, hlen]
 
+/-- **AP for perfect predictions**: all `n` positive pairs reach the match threshold `t` and nothing was
+missed ⇒ every precision entry at a recall threshold `r ≤ 1`, hence AP, is at least `n/(n+eps)`
+`≥ 1 − eps` ("1 up to rounding"; `eps = np.spacing(1)`). -/
+theorem perfect_AP (eps : R) (he : 0 ≤ eps) (ms recThr : List R) (t : R) (hne : ms ≠ [])
+    (hms : ∀ m ∈ ms, t ≤ m) (hr : ∀ r ∈ recThr, r ≤ 1) (hrne : recThr ≠ []) :
+    (ms.length : R) / ((ms.length : R) + eps) ≤
+      mean (Nat.cast : Nat → R) (vocRow (Nat.cast : Nat → R) eps (ms.length + 0) recThr ms t).precision ∧
+    1 - eps ≤ (ms.length : R) / ((ms.length : R) + eps) := by
+  have hn : 0 < ms.length := List.length_pos_iff.mpr hne
+  have hfl : flags t ms = List.replicate ms.length true := by
+    apply List.eq_replicate_iff.mpr
+    refine ⟨by simp [flags], ?_⟩
+    intro b hb
+    simp only [flags, List.mem_map] at hb
+    obtain ⟨m, hm, rfl⟩ := hb
+    simp [not_lt.mpr (hms m hm)]
+  constructor
+  · apply le_mean
+    · simpa [vocRow] using hrne
+    · intro x hx
+      simp only [vocRow, List.mem_map, Nat.add_zero] at hx
+      obtain ⟨r, hrm, rfl⟩ := hx
+      rw [hfl]
+      exact perfect_precision_ge eps he ms.length hn r (hr r hrm)
+  · have hnR : (1 : R) ≤ (ms.length : R) := by exact_mod_cast hn
+    have hpos : (0 : R) < (ms.length : R) + eps := by linarith
+    rw [le_div_iff₀ hpos]
+    nlinarith [mul_nonneg he he]
+
 example : ∃ (oks : Nat → Nat → Option Rat), (∀ g, oks g g = some 1) ∧
     (∀ g g' w, g' ≠ g → oks g' g = some w → w < 1) :=
   ⟨fun g p => if g = p then some 1 else some (1/2), by simp, by
@@ -331,5 +377,132 @@ example : ∃ (oks : Nat → Nat → Option Rat), (∀ g, oks g g = some 1) ∧
     rw [← h]; decide +kernel⟩
 
 end perfect
+
+/-! ## frame pairing (`find_frame_pairs`) -/
+
+section pairing
+variable {G P : Type}
+
+/-- every pair consists of a gt frame with ≥ 1 user instance and the prediction frame that has the
+same `frame_idx` in the prediction video whose (backend class, filename, **dataset**) equal those of
+the gt frame's video -/
+theorem pairs_sound (gt : Labels G) (pr : Labels P) (a : LFrame G) (b : LFrame P)
+    (h : (a, b) ∈ findFramePairs gt pr) :
+    a ∈ gt.frames ∧ a.insts ≠ [] ∧ b ∈ pr.frames ∧ b.frameIdx = a.frameIdx ∧
+      ∃ vk, gt.videos[a.video]? = some vk ∧ pr.videos[b.video]? = some vk := by
+  obtain ⟨vk, pj, hv, hf, ha, hne, hfind⟩ := (mem_findFramePairs gt pr a b).mp h
+  have hb := List.find?_some hfind
+  simp only [Bool.and_eq_true, beq_iff_eq] at hb
+  obtain ⟨x, hx, hpx, _⟩ := firstIdx_spec _ _ pj hf
+  have : x = vk := (sameVideo_iff vk x).mp hpx
+  subst this
+  exact ⟨ha, hne, List.mem_of_find?_eq_some hfind, hb.2, x, hv, by rw [hb.1]; exact hx⟩
+
+/-- **Pairing is injective on (video, frame_idx)**: when the gt videos are pairwise distinguishable
+(by backend class, filename or dataset), two pairs that use the same prediction (video, frame_idx)
+come from the same gt (video, frame_idx) — no prediction frame is compared with frames of two
+different gt videos. -/
+theorem pairing_injective (gt : Labels G) (pr : Labels P) (hnd : gt.videos.Nodup)
+    (a a' : LFrame G) (b b' : LFrame P) (h : (a, b) ∈ findFramePairs gt pr)
+    (h' : (a', b') ∈ findFramePairs gt pr) (hv : b.video = b'.video) (hf : b.frameIdx = b'.frameIdx) :
+    a.video = a'.video ∧ a.frameIdx = a'.frameIdx := by
+  obtain ⟨_, _, _, hi, vk, hg, hp⟩ := pairs_sound gt pr a b h
+  obtain ⟨_, _, _, hi', vk', hg', hp'⟩ := pairs_sound gt pr a' b' h'
+  rw [hv, hp'] at hp
+  have : vk' = vk := Option.some.inj hp
+  subst this
+  exact ⟨getElem?_inj_of_nodup hnd hg hg', by omega⟩
+
+/-- **Perfect pairs**: if the prediction labels carry the same (duplicate-free) video list and one
+prediction frame `cp f` per gt frame `f` on the same video and frame index, then every gt frame with
+a user instance is paired, and only with its own copy — also when several videos share a filename
+and differ by dataset only, and when different videos have frames with the same `frame_idx`. -/
+theorem perfect_pairs (gt : Labels G) (cp : LFrame G → LFrame P)
+    (hcpv : ∀ f, (cp f).video = f.video) (hcpi : ∀ f, (cp f).frameIdx = f.frameIdx)
+    (hnd : gt.videos.Nodup)
+    (hkey : ∀ x ∈ gt.frames, ∀ y ∈ gt.frames, x.video = y.video → x.frameIdx = y.frameIdx → x = y)
+    (hvalid : ∀ x ∈ gt.frames, x.video < gt.videos.length) :
+    (∀ a b, (a, b) ∈ findFramePairs gt ⟨gt.videos, gt.frames.map cp⟩ → b = cp a) ∧
+    (∀ a ∈ gt.frames, a.insts ≠ [] → (a, cp a) ∈ findFramePairs gt ⟨gt.videos, gt.frames.map cp⟩) := by
+  have key : ∀ (a : LFrame G) (b : LFrame P), a ∈ gt.frames →
+      (gt.frames.map cp).find? (fun x => x.video == a.video && x.frameIdx == a.frameIdx) = some b → b = cp a := by
+    intro a b ha hfind
+    have hb := List.find?_some hfind
+    simp only [Bool.and_eq_true, beq_iff_eq] at hb
+    obtain ⟨a2, ha2, rfl⟩ := List.mem_map.mp (List.mem_of_find?_eq_some hfind)
+    rw [hcpv, hcpi] at hb
+    rw [hkey a2 ha2 a ha hb.1 hb.2]
+  constructor
+  · intro a b h
+    obtain ⟨vk, pj, hv, hf, ha, _, hfind⟩ := (mem_findFramePairs gt _ a b).mp h
+    have hpj : pj = a.video := by
+      have := firstIdx_self gt.videos hnd a.video vk hv
+      simp only at hf
+      rw [this] at hf
+      exact (Option.some.inj hf).symm
+    subst hpj
+    exact key a b ha hfind
+  · intro a ha hne
+    have hlt := hvalid a ha
+    refine (mem_findFramePairs gt _ a (cp a)).mpr
+      ⟨gt.videos[a.video], a.video, by simp [hlt], firstIdx_self gt.videos hnd _ _ (by simp [hlt]), ha, hne, ?_⟩
+    cases hfind : (gt.frames.map cp).find? (fun x => x.video == a.video && x.frameIdx == a.frameIdx) with
+    | none =>
+      have := List.find?_eq_none.mp hfind (cp a) (List.mem_map_of_mem ha)
+      simp [hcpv, hcpi] at this
+    | some b => rw [key a b ha hfind]
+
+/-- **Perfect evaluation**: predictions identical to the ground truth (`pred g` is the copy of gt
+instance `g`, OKS `one` with itself, every other gt of the frame strictly below — `perfect_matching`),
+any number of videos and frames: every gt frame is paired with its own frame, every gt instance is
+matched to its own copy at OKS `one`, nothing is missed; `perfect_scores` then gives AR = 1, mOKS = 1. -/
+theorem perfect_evaluation {R : Type} [Field R] [LinearOrder R] [IsStrictOrderedRing R]
+    (oks : G → P → Option R) (score : P → R) (pred : G → P) (thr one : R) (hthr : thr < one)
+    (hself : ∀ g, oks g (pred g) = some one)
+    (hdist : ∀ g g' w, g' ≠ g → oks g' (pred g) = some w → w < one)
+    (gt : Labels G) (hnd : gt.videos.Nodup)
+    (hkey : ∀ x ∈ gt.frames, ∀ y ∈ gt.frames, x.video = y.video → x.frameIdx = y.frameIdx → x = y)
+    (hvalid : ∀ x ∈ gt.frames, x.video < gt.videos.length)
+    (hinst : ∀ x ∈ gt.frames, x.insts.Nodup) :
+    let pr : Labels P := ⟨gt.videos, gt.frames.map (fun f => ⟨f.video, f.frameIdx, f.insts.map pred⟩)⟩
+    (processFrames oks score thr (evalFrames gt pr)).2 = [] ∧
+    (∀ x ∈ (processFrames oks score thr (evalFrames gt pr)).1, x.2.2 = one ∧ x.2.1 = pred x.1) := by
+  intro pr
+  obtain ⟨hp1, _⟩ := perfect_pairs gt (fun f => (⟨f.video, f.frameIdx, f.insts.map pred⟩ : LFrame P))
+    (fun _ => rfl) (fun _ => rfl) hnd hkey hvalid
+  have hfs : ∀ f ∈ evalFrames gt pr, f.gts.Nodup ∧ f.prs = some (f.gts.map pred) := by
+    intro f hf
+    obtain ⟨⟨a, b⟩, hab, rfl⟩ := List.mem_map.mp hf
+    have hb := hp1 a b hab
+    have ha := (pairs_sound gt pr a b hab).1
+    subst hb
+    exact ⟨hinst a ha, rfl⟩
+  obtain ⟨h1, h2, _⟩ := processFrames_perfect oks score pred thr one hthr hself hdist _ hfs
+  exact ⟨h1, h2⟩
+
+/-- the same filename with two datasets: each video is paired with itself (the situation of several
+videos embedded in one `.pkg.slp`) -/
+example : (findFramePairs (G := Nat) (P := Nat)
+      ⟨[⟨0, 7, some 0⟩, ⟨0, 7, some 1⟩], [⟨0, 0, [10]⟩, ⟨1, 0, [11]⟩]⟩
+      ⟨[⟨0, 7, some 0⟩, ⟨0, 7, some 1⟩], [⟨0, 0, [20]⟩, ⟨1, 0, [21]⟩]⟩).map
+      (fun ab => (ab.1.insts, ab.2.insts)) = [([10], [20]), ([11], [21])] := by decide
+
+/-- Full statement “every label pair can be paired” holds of the pinned tree only for HDF5-backed
+videos (F-C16c): a backend without `dataset` attribute (`MediaVideo`, unopened) raises. -/
+theorem pairs_total_partial (gt : Labels G) (pr : Labels P)
+    (h : ∀ vk ∈ gt.videos, ∀ v ∈ pr.videos, vk.dataset.isSome ∧ v.dataset.isSome) :
+    findFramePairsAsIs gt pr = some (findFramePairs gt pr) := by
+  unfold findFramePairsAsIs
+  rw [if_neg]
+  simp only [List.any_eq_true, Bool.and_eq_true, Bool.or_eq_true, not_exists, not_and]
+  intro vk hvk v hv _
+  have := h vk hvk v hv
+  cases hd : v.dataset <;> cases hd' : vk.dataset <;> simp_all
+
+theorem pairs_total_asIs_counterexample :
+    findFramePairsAsIs (G := Nat) (P := Nat) ⟨[⟨1, 3, none⟩], [⟨0, 0, [0]⟩]⟩ ⟨[⟨1, 3, none⟩], [⟨0, 0, [0]⟩]⟩ = none := by
+  decide
+
+end pairing
 
 end SleapVerif.C16
